@@ -215,5 +215,11 @@ ScanComplete(k, f, o, s, n) ==
          int  |-> IF fin.v = "A" THEN DigitsTagged(s, r.segs, "int", 1, << >>) ELSE << >>,
          frac |-> IF fin.v = "A" THEN DigitsTagged(s, r.segs, "frac", 1, << >>) ELSE << >>,
          exp  |-> IF fin.v = "A" THEN DigitsTagged(s, r.segs, "exp", 1, << >>) ELSE << >>,
-         hassep |-> r.st.sepany]
+         hassep |-> r.st.sepany, hasExp |-> r.st.hasExp, hasPoint |-> r.st.hasPoint, segs |-> r.segs]
+
+(* first / last byte index of the segments tagged t (0 if none) *)
+RECURSIVE SegLo(_, _, _)
+SegLo(segs, t, i) == IF i > Len(segs) THEN 0 ELSE IF segs[i][1] = t THEN segs[i][2] ELSE SegLo(segs, t, i + 1)
+RECURSIVE SegHi(_, _, _)
+SegHi(segs, t, i) == IF i = 0 THEN 0 ELSE IF segs[i][1] = t THEN segs[i][3] ELSE SegHi(segs, t, i - 1)
 =============================================================================
